@@ -106,6 +106,8 @@ impl Optimizer for Adam {
         while t < maxsteps && !converged {
             t += 1;
 
+            #[cfg(feature = "verif-hooks")]
+            crate::verif_hooks::tick(crate::verif_hooks::Site::AdamStep);
             let prev_params = params.clone();
 
             let res = f(&params, data);
